@@ -8,6 +8,26 @@ CHECKS = {
    technique="runtime monitoring: real installs on synthetic targets at swept addresses in crash-isolated child processes; behavioural oracle (unique fake id) + independent x86 interpreter over live memory; interposed mmap/mprotect log",
    text="Every explored placement (address region, page offset incl. page-straddling entries, pinned trampoline page, byte-granular fake displacement around +/-2^31, flavour) was really installed and called from 4 threads; each call returned the fake's unique id and an independent decoder followed the entry bytes to exactly the fake. Sampling of an infinite address space: held on the executions observed, not proved.",
    note="Linux x86-64 branch only; kernel honours free mmap hints; interpreter knows the listed jump idioms (unknown encodings are inconclusive)"),
+ "C02": dict(engine="native", level="exploration", ref="DESIGN.md §5 C02",
+   technique="runtime monitoring: seeded random install histories over 80 real targets, reference stack model of 'most recent fake wins', byte images before/after every injector lifetime, many consecutive lifetimes per process; memcheck slice in thorough",
+   text="Thousands of real injector lifetimes (0-12 installs, repeated targets, all install kinds, exit by drop / unwinding / verification panic / over-call panic) were executed; after each, every target's bytes equalled the pre-lifetime image and its behaviour was original, and during each the most recent install answered. Histories are sampled, not enumerated.",
+   note="harness zeroes fake! call counters itself (independence from C07); x86-64 Linux"),
+ "C03": dict(engine="native", level="exploration", ref="DESIGN.md §5 C03",
+   technique="runtime monitoring: byte-for-byte snapshots of every readable executable mapping (from /proc/self/maps) before/after every install and after scope exit, differ classifies each changed byte; untouched neighbours at 16-byte pitch are called",
+   text="Every byte of executable memory of the process was compared across each API call of the sampled histories: every differing byte lay in the 16-byte entry slot of the named target or in a mapping that install created; after scope exit the diff against the initial snapshot was empty and the page set identical.",
+   note="only executable mappings are compared; single-threaded at snapshot time"),
+ "C11": dict(engine="native", level="fault_enumeration", ref="DESIGN.md §5 C11",
+   technique="runtime monitoring with address-space shaping and fault injection: the +/-128 MiB neighbourhood of a synthetic target is reserved except chosen holes, hinted mmaps are failed by plan through interposers; online ledger of library mappings; independent decoder; call oracle",
+   text="For each enumerated (target position, neighbourhood layout, mmap/mprotect fault plan) the real install either kept exactly one mapping within 128 MiB that the entry decodes to and the call reached the fake, or panicked with target bytes, behaviour and mapping set unchanged; every rejected placement was given back (ledger). The layout classes (empty/full/one hole at either extreme/just outside/random) are enumerated; offsets inside are sampled.",
+   note="kernel honours free hints above the probed hint floor; clean refusals with a free page are allowed by the property"),
+ "C12": dict(engine="native", level="exploration", ref="DESIGN.md §5 C12",
+   technique="runtime monitoring: online ledger over interposed mmap/munmap (each munmap must hit exactly one live library mapping with its length; ledger empty after every drop), canary pages, /proc/self/maps page-set comparison, 5e3..1.6e6 create/install/drop cycles; memcheck slice in thorough",
+   text="Over thousands (quick) to 10^5 per process (thorough) real create/install/drop cycles the ledger of executable mappings obtained by the library was empty after every drop, equalled the number of live installs during each lifetime, every munmap matched exactly one live library mapping, canaries survived and the executable-anonymous page set stayed equal to the initial one.",
+   note="Rust std never maps executable anonymous memory; harness mappings bypass the interposers"),
+ "C17": dict(engine="native", level="exploration", ref="DESIGN.md §5 C17",
+   technique="runtime monitoring: interposed __clear_cache log with call-time copies of the flushed range + byte diffs of watched code between observation points before/after every API call; offline checker (covered, and flushed after the last write)",
+   text="For every API call of the sampled histories (installs, drops, unwinds) every byte that changed in a watched target range and every non-zero byte of a new trampoline page was inside a range passed to __clear_cache during that call, and the copy taken at the last covering flush already held the final value.",
+   note="x86-64 keeps instruction caches coherent: decides 'flush requested for the right range at the right time' on the Linux code path, not stale execution"),
 }
 NOT_YET = {}
 
